@@ -65,6 +65,16 @@ end subroutine readonly
 subroutine noop(y)
   real, intent(inout) :: y
 end subroutine noop
+elemental subroutine esub(y, z)
+  real, intent(out) :: y
+  real, intent(in) :: z
+  y = z * 2.0
+end subroutine esub
+pure subroutine psub(y, z)
+  real, intent(inout) :: y
+  real, intent(in) :: z
+  y = y + z
+end subroutine psub
 end module mm
 '''
 DOM = [("n", [1, 2, 3]), ("m", [1, 2]), ("kout", [2]), ("t", [[1, 2]]), ("u", [[3, 1]]),
@@ -83,6 +93,7 @@ BODIES = [
     ["call setout(t, n)", "call incr(u)", "call setidx(k, m)", "a(k) = 1.0", "call fill(a, n)",
      "call fill(b, kout)", "call readonly(t, u)", "call setout(a(n), m)", "call incr(a(m))",
      "call noop(u)", "call setout(c(n,m), kout)"],
+    ["call esub(t, u)", "call esub(a(n), t)", "call psub(u, t)", "call psub(a(m), a(n))", "t = u"],
     ["call random_number(t)", "call random_number(a(1:n))", "call mvbits(n, 0, 2, kout, 1)",
      "call cpu_time(u)", "call system_clock(n, m)", "a(n) = t"],
     ["x = 1.0", "do while (x < 3.0)", "  x = x + t + 1.0", "  a(n) = x", "end do", "t = x"],
@@ -179,11 +190,17 @@ def _build(item):
     return out
 
 
-def m_default(case, clause, detail, finding):
-    return False
+def m_pure_subroutine(case, clause, detail, finding):
+    '''Call.reference_accesses treats a call to a routine that is known to be PURE as
+    read-only for all its arguments - right for pure functions, wrong for a pure
+    SUBROUTINE, which may define its intent(out/inout) dummies'''
+    import re
+    m = re.match(r"call (\w+)\(", case["statement"].strip().lower())
+    return clause == "MayWriteReported" and bool(m) and m.group(1) in PURE_SUBROUTINES
 
 
-MATCHERS = {}
+PURE_SUBROUTINES = {"psub"}
+MATCHERS = {"pure-subroutine-arguments-read-only": m_pure_subroutine}
 
 
 def run(tier):
